@@ -206,7 +206,6 @@ func c13Menu(size string) []c13Cmd {
 	return full
 }
 
-
 // c13ExtraEncodings are valid encodings of the command types that are not in the log menus;
 // they are only used as garbage seeds (truncations / single-byte mutations).
 func c13ExtraEncodings() []c13Cmd {
@@ -524,6 +523,7 @@ func c13ResClass(res []byte) string {
 // ---------------------------------------------------------------- reference trace
 
 type c13Trace struct {
+	pre     int // the first pre commands are the system's fixed preamble (always one command per batch)
 	cmds    []c13Cmd
 	res     [][]byte // result of command i when applied alone (nil for the refused one)
 	errAt   int      // index of the refused command (always the last one), -1 if none
@@ -579,14 +579,25 @@ type c13Sys struct {
 	maxDepth int
 
 	partitionRuns, restartRuns, snapshotRuns, refusedLogs, multiBatchWithStale atomic.Int64
-	families                                                                  sync.Map // family -> struct{}
-	resultKinds                                                               sync.Map
+	families                                                                   sync.Map // family -> struct{}
+	resultKinds                                                                sync.Map
+
+	// preamble is applied one command per batch before the explored log starts (start state of the system); it is part
+	// of every trace (raft indexes 1..len(preamble)), so restarts replay it and probes re-apply it, but no explored
+	// batch ever contains a preamble command and snapshots are taken only at prefixes >= len(preamble)
+	preamble        []c13Cmd
+	r               *ev.R
+	preambleBroken  atomic.Bool
+	okChanged       sync.Map     // label -> struct{}: the command answered ok and changed the state when applied as its own batch
+	migThenReader   atomic.Int64 // explored multi-command batches with exactly one successful task+meta migration command followed by a runtime-meta reader
+	migThenReaderOK sync.Map     // label of that migration command -> struct{}
 }
 
 type c13Inst struct {
 	sys  *c13Sys
 	node *c13Node
 	tr   c13Trace
+	dead bool // the preamble did not produce the start state (harness error reported)
 }
 
 func (s *c13Sys) acquire() *c13Node {
@@ -603,6 +614,17 @@ func (s *c13Sys) newInst() mc.Instance {
 	in.tr.snaps = [][]byte{snap}
 	in.tr.smSnaps = [][]byte{n.restorable()}
 	in.tr.applied = []uint64{a}
+	for _, c := range s.preamble {
+		_, err := in.step(c)
+		if k := len(in.tr.res); err != nil || in.tr.errAt >= 0 || k == 0 || string(in.tr.res[k-1]) != fsm.ApplyResultOK {
+			in.dead = true
+			if s.preambleBroken.CompareAndSwap(false, true) && s.r != nil {
+				s.r.HarnessError("system %s: preamble command %s did not answer ok (err=%v, refused=%s)", s.name, c.label, err, in.tr.errCls)
+			}
+			break
+		}
+	}
+	in.tr.pre = len(in.tr.cmds)
 	return in
 }
 
@@ -611,7 +633,7 @@ func (in *c13Inst) Close() { in.node.release() }
 func (in *c13Inst) Canon() string { return "" } // a log is not summarised by its final state: batches span the whole log
 
 func (in *c13Inst) Events() []string {
-	if in.tr.errAt >= 0 {
+	if in.tr.errAt >= 0 || in.dead {
 		return nil // the slot fail-stops at a refused command: nothing is applied after it
 	}
 	out := make([]string, len(in.sys.menu))
@@ -626,7 +648,11 @@ func (in *c13Inst) Apply(evl string, _ *mc.Env) (string, error) {
 	if !ok {
 		panic("c13: unknown event " + evl)
 	}
-	c := in.sys.menu[ci]
+	return in.step(in.sys.menu[ci])
+}
+
+// step applies one command as its own batch on the reference replica and extends the trace.
+func (in *c13Inst) step(c c13Cmd) (string, error) {
 	t := &in.tr
 	i := len(t.cmds)
 	idx := uint64(i + 1)
@@ -675,6 +701,9 @@ func (in *c13Inst) Apply(evl string, _ *mc.Env) (string, error) {
 	changed := "same"
 	if !bytes.Equal(snap, prevSnap) {
 		changed = "changed"
+		if string(res[0]) == fsm.ApplyResultOK {
+			in.sys.okChanged.Store(c.label, struct{}{})
+		}
 	}
 	return c.kind() + ":" + c13ResClass(res[0]) + ":" + changed, nil
 }
@@ -683,17 +712,20 @@ func (in *c13Inst) Apply(evl string, _ *mc.Env) (string, error) {
 func (in *c13Inst) Check() (verr error) {
 	t := &in.tr
 	n := len(t.cmds)
-	if n == 0 {
+	p := t.pre
+	if n <= p || in.dead {
 		return nil
 	}
 	if t.errCls == "PANIC" || t.errCls == "ACCEPTED" {
 		return nil // already reported by Apply
 	}
-	// (b) every other batch partition; bit g of mask set = batch boundary after command g
-	if n >= 2 {
-		all := (1 << (n - 1)) - 1
-		for mask := 0; mask < all; mask++ {
-			if err := in.sys.runPartition(t, mask); err != nil {
+	// (b) every other batch partition of the explored log; bit g of mask set = batch boundary after command g
+	// (the boundaries after the p preamble commands are always set)
+	if n-p >= 2 {
+		forced := (1 << p) - 1
+		all := (1 << (n - p - 1)) - 1
+		for sub := 0; sub < all; sub++ {
+			if err := in.sys.runPartition(t, forced|sub<<p); err != nil {
 				return err
 			}
 		}
@@ -705,7 +737,7 @@ func (in *c13Inst) Check() (verr error) {
 	// Prefix positions: the proper prefixes of this log were checked as logs of their own up to their end; here every
 	// run continues to the end of this log. For a log that ends in a refused command only the longest good prefix is
 	// restarted / snapshotted (shorter prefixes were covered by the log without the refused command).
-	first := 1
+	first := p + 1
 	if t.errAt >= 0 {
 		first = good
 	}
@@ -724,8 +756,8 @@ func (in *c13Inst) Check() (verr error) {
 			return err
 		}
 	}
-	if n == 1 && good == 1 {
-		if err := in.sys.runSnapshot(t, 0); err != nil {
+	if n == p+1 && good == n {
+		if err := in.sys.runSnapshot(t, p); err != nil {
 			return err
 		}
 	}
@@ -734,8 +766,14 @@ func (in *c13Inst) Check() (verr error) {
 
 func c13PartitionString(t *c13Trace, mask int) string {
 	var b strings.Builder
+	if t.pre > 0 {
+		fmt.Fprintf(&b, "preamble(%d, one per batch) + ", t.pre)
+	}
 	b.WriteByte('[')
 	for i, c := range t.cmds {
+		if i < t.pre {
+			continue
+		}
 		b.WriteString(c.label)
 		if i == len(t.cmds)-1 {
 			break
@@ -766,8 +804,10 @@ func c13Class(kind string) string {
 		return "runtime-meta"
 	case "ret-adv":
 		return "retention"
-	case "mig-create", "mig-create-terminal", "mig-fail", "mig-abort":
+	case "mig-create", "mig-create-terminal", "mig-fail", "mig-advance":
 		return "task-lifecycle"
+	case "mig-set-fence", "mig-reset-fence", "mig-commit", "mig-add-learner", "mig-promote", "mig-clear-fence", "mig-abort":
+		return "migration-meta" // the seven commands that rewrite the task row AND the channel's runtime-meta row
 	case "mig-gc":
 		return "task-gc"
 	case "hs-fence":
@@ -894,6 +934,27 @@ func (s *c13Sys) runPartition(t *c13Trace, mask int) error {
 		}
 		if stale && len(batch) > 1 {
 			s.multiBatchWithStale.Add(1)
+		}
+		if len(batch) > 1 {
+			mig, migAt := 0, -1
+			for i, c := range batch {
+				switch c13Class(c.kind()) {
+				case "migration-meta", "task-lifecycle", "task-gc":
+					mig++
+					if c13Class(c.kind()) == "migration-meta" && string(res[i]) == fsm.ApplyResultOK {
+						migAt = i
+					}
+				}
+			}
+			if mig == 1 && migAt >= 0 {
+				for _, c := range batch[migAt+1:] {
+					if cl := c13Class(c.kind()); cl == "runtime-meta" || cl == "retention" {
+						s.migThenReader.Add(1)
+						s.migThenReaderOK.Store(batch[migAt].label, struct{}{})
+						break
+					}
+				}
+			}
 		}
 		if !bytes.Equal(snap, t.snaps[end+1]) {
 			a, b := s.blameState(t, start, end)
@@ -1029,6 +1090,7 @@ func c13RunLogs(r *ev.R, name, menuSize string, depth int) (*c13Sys, mc.Result) 
 
 func c13RunSystem(r *ev.R, s *c13Sys) (*c13Sys, mc.Result) {
 	name, depth := s.name, s.maxDepth
+	s.r = r
 	refused := 0
 	for i, c := range s.menu {
 		if _, dup := s.byLabel[c.label]; dup {
@@ -1046,7 +1108,7 @@ func c13RunSystem(r *ev.R, s *c13Sys) (*c13Sys, mc.Result) {
 		// a diverging log is extended all the same: independent divergences of longer logs are attributed to their own
 		// smallest diverging batch instead of being hidden behind the first one
 		KeepGoing: true,
-		Bounds: map[string]any{"menu": len(s.menu), "menu_refused_commands": refused, "max_log_length": depth,
+		Bounds: map[string]any{"menu": len(s.menu), "menu_refused_commands": refused, "max_log_length": depth, "preamble_commands": len(s.preamble),
 			"variants": "all 2^(n-1) batch partitions; restart at every prefix 1..n with replay from the durable applied index; snapshot at every prefix 0..n -> fresh DB -> rest"},
 		Note: "no merging (a state is a command log; batches span the whole log); a refused command ends the log (the slot fail-stops); logs are extended past a divergence (KeepGoing), every divergence is attributed to the smallest batch that reproduces it",
 	})
@@ -1148,15 +1210,213 @@ func c13RunHS(r *ev.R, config, size string, depth int) {
 	r.Guard(s.name+"/refused-logs", s.refusedLogs.Load() >= 5, "logs ending in a refused command=%d", s.refusedLogs.Load())
 }
 
+// ---------------------------------------------------------------- channel-migration (task + runtime-meta) systems
+
+// c13MenuChanMig builds the four focused systems around the seven channel-migration commands that rewrite the task row AND
+// the channel's runtime-meta row in one write-batch operation (SetChannelWriteFence, ResetChannelWriteFenceToPreCutover,
+// CommitChannelLeaderTransfer, AddChannelLearner, PromoteLearnerAndRemoveReplica, ClearChannelWriteFence,
+// AbortChannelMigration). The start state (preamble, one command per batch) is channel c1/2 with runtime meta and ONE
+// active task T1 in the phase where the system's commands are applicable; the menu mixes those commands with later
+// readers of the same runtime-meta row (lease renewal, an upsert that is stale once the migration command bumped the
+// epoch, a newer-epoch upsert, a guarded retention advance) and a subscriber write as control. A batch with two or more
+// migration commands is applied command by command by the state machine, so the interesting batches hold exactly one.
+// Returns (preamble, menu, labels of migration commands that must answer ok and change the state in some log).
+func c13MenuChanMig(config, size string) ([]c13Cmd, []c13Cmd, []string) {
+	mk := func(label, family string, data []byte) c13Cmd {
+		return c13Cmd{label: label, family: family, slot: c13Slot, hs: c13HS, data: data}
+	}
+	run := metadb.ChannelMigrationStatusRunning
+	rtm := func(channelEpoch, leaderEpoch, leader uint64, replicas []uint64, lease int64) metadb.ChannelRuntimeMeta {
+		m := c13RuntimeMeta(channelEpoch, leaderEpoch, leader)
+		m.Replicas, m.LeaseUntilMS = replicas, lease
+		return m
+	}
+	r123, r1234 := []uint64{1, 2, 3}, []uint64{1, 2, 3, 4}
+	upsert := func(label, family string, m metadb.ChannelRuntimeMeta) c13Cmd {
+		return mk("rtm-upsert:c1:"+label, family, fsm.EncodeUpsertChannelRuntimeMetaCommand(m))
+	}
+	retAdv := func(channelEpoch uint64) c13Cmd {
+		return mk(fmt.Sprintf("ret-adv:c1:e%dl1L1:seq5", channelEpoch), "stale", fsm.EncodeAdvanceChannelRetentionThroughSeqCommand(metadb.ChannelRetentionAdvance{
+			ChannelID: "c1", ChannelType: 2, ExpectedChannelEpoch: channelEpoch, ExpectedLeaderEpoch: 1, ExpectedLeader: 1, ExpectedLeaseUntilMS: 1000,
+			RetentionThroughSeq: 5, RetentionUpdatedAtMS: 50}))
+	}
+	control := mk("sub-add:c1:u1,u2:v2", "valid", fsm.EncodeAddSubscribersCommand("c1", 2, []string{"u1", "u2"}, 2))
+	guard := func(phase metadb.ChannelMigrationPhase, updatedAt int64) metadb.ChannelMigrationTaskGuard {
+		return metadb.ChannelMigrationTaskGuard{ChannelID: "c1", ChannelType: 2, TaskID: "T1", ExpectedStatus: run, ExpectedPhase: phase, ExpectedUpdatedAtMS: updatedAt}
+	}
+	rg := func(channelEpoch, leaderEpoch, leader uint64, token string, version uint64) metadb.ChannelMigrationRuntimeGuard {
+		return metadb.ChannelMigrationRuntimeGuard{ChannelID: "c1", ChannelType: 2, ExpectedChannelEpoch: channelEpoch, ExpectedLeaderEpoch: leaderEpoch,
+			ExpectedLeader: leader, ExpectedFenceToken: token, ExpectedFenceVersion: version}
+	}
+	task := func(kind metadb.ChannelMigrationKind, phase metadb.ChannelMigrationPhase, source, target, desired, baseEpoch uint64) metadb.ChannelMigrationTask {
+		return metadb.ChannelMigrationTask{TaskID: "T1", Kind: kind, Status: run, Phase: phase, ChannelID: "c1", ChannelType: 2, SourceNode: source, TargetNode: target,
+			DesiredLeader: desired, BaseChannelEpoch: baseEpoch, BaseLeaderEpoch: 1, CreatedAtMS: 100, UpdatedAtMS: 100}
+	}
+	setFence := func(label string, g metadb.ChannelMigrationTaskGuard, r metadb.ChannelMigrationRuntimeGuard, phase metadb.ChannelMigrationPhase, until, updatedAt int64) c13Cmd {
+		return mk("mig-set-fence:T1:"+label, "valid", fsm.EncodeSetChannelWriteFenceCommand(metadb.ChannelMigrationFenceRequest{Guard: g, RuntimeGuard: r, Status: run, Phase: phase,
+			FenceReason: 1, FenceUntilMS: until, UpdatedAtMS: updatedAt}))
+	}
+	resetFence := func(g metadb.ChannelMigrationTaskGuard, r metadb.ChannelMigrationRuntimeGuard, phase metadb.ChannelMigrationPhase, updatedAt int64) c13Cmd {
+		return mk("mig-reset-fence:T1:expired", "stale", fsm.EncodeResetChannelWriteFenceToPreCutoverCommand(metadb.ChannelMigrationResetFenceRequest{Guard: g, RuntimeGuard: r, Status: run, Phase: phase,
+			NowMS: 950, UpdatedAtMS: updatedAt}))
+	}
+	abort := func(label string, g metadb.ChannelMigrationTaskGuard, r metadb.ChannelMigrationRuntimeGuard) c13Cmd {
+		return mk("mig-abort:T1:"+label, "stale", fsm.EncodeAbortChannelMigrationCommand(metadb.ChannelMigrationAbortRequest{Guard: g, RuntimeGuard: r,
+			Status: metadb.ChannelMigrationStatusAborted, Phase: g.ExpectedPhase, UpdatedAtMS: 300, CompletedAtMS: 300, LastError: "abort"}))
+	}
+	clearFence := func(g metadb.ChannelMigrationTaskGuard, r metadb.ChannelMigrationRuntimeGuard) c13Cmd {
+		return mk("mig-clear-fence:T1:completed", "stale", fsm.EncodeClearChannelWriteFenceCommand(metadb.ChannelMigrationClearFenceRequest{Guard: g, RuntimeGuard: r,
+			Status: metadb.ChannelMigrationStatusCompleted, Phase: metadb.ChannelMigrationPhaseClearFence, UpdatedAtMS: 180, CompletedAtMS: 180}))
+	}
+	advance := func(label string, g metadb.ChannelMigrationTaskGuard, phase metadb.ChannelMigrationPhase, updatedAt int64, proof metadb.ChannelMigrationCutoverProof) c13Cmd {
+		return mk("mig-advance:T1:"+label, "stale", fsm.EncodeAdvanceChannelMigrationTaskCommand(metadb.ChannelMigrationTaskAdvance{Guard: g, Status: run, Phase: phase,
+			UpdatedAtMS: updatedAt, CutoverProof: proof}))
+	}
+	proof := func(channelEpoch uint64) metadb.ChannelMigrationCutoverProof {
+		return metadb.ChannelMigrationCutoverProof{CutoverLEO: 10, CutoverHW: 10, DrainedLeaderNode: 1, DrainedRuntimeGeneration: 1, DrainedChannelEpoch: channelEpoch, DrainedLeaderEpoch: 1, DrainedFenceVersion: 1}
+	}
+	create := func(t metadb.ChannelMigrationTask) c13Cmd {
+		return mk("mig-create:T1", "valid", fsm.EncodeCreateChannelMigrationTaskCommand(t))
+	}
+	lt, rr := metadb.ChannelMigrationKindLeaderTransfer, metadb.ChannelMigrationKindReplicaReplace
+
+	var pre, menu, full []c13Cmd
+	var must []string
+	switch config {
+	case "leader-transfer-prefence":
+		// T1 moves leadership 1 -> 2 and waits in phase write-fence: the fence is not set yet
+		g0, r0 := guard(metadb.ChannelMigrationPhaseWriteFence, 100), rg(1, 1, 1, "", 0)
+		g1, r1 := guard(metadb.ChannelMigrationPhaseDrainLeader, 150), rg(1, 1, 1, "T1", 1)
+		pre = []c13Cmd{upsert("e1l1L1", "valid", rtm(1, 1, 1, r123, 1000)), create(task(lt, metadb.ChannelMigrationPhaseWriteFence, 1, 2, 2, 1))}
+		fence := setFence("drain", g0, r0, metadb.ChannelMigrationPhaseDrainLeader, 900, 150)
+		abortFenced := abort("fenced", g1, r1)
+		menu = []c13Cmd{fence, abortFenced,
+			upsert("e1l1L1:lease2000", "valid", rtm(1, 1, 1, r123, 2000)), retAdv(1), control}
+		full = []c13Cmd{fence, abortFenced, abort("prefence", g0, r0), resetFence(g1, r1, metadb.ChannelMigrationPhaseWriteFence, 200),
+			advance("commit-meta+proof", g1, metadb.ChannelMigrationPhaseCommitLeaderMeta, 160, proof(1)),
+			upsert("e1l1L1:lease2000", "valid", rtm(1, 1, 1, r123, 2000)), upsert("e1l2L2:lease3000", "valid", rtm(1, 2, 2, r123, 3000)), retAdv(1), control}
+		must = []string{fence.label, abortFenced.label}
+	case "leader-transfer-cutover":
+		// T1 holds the write fence (version 1, until 900) and carries the drain proof: the leader change can be committed
+		g0, r0 := guard(metadb.ChannelMigrationPhaseWriteFence, 100), rg(1, 1, 1, "", 0)
+		g1 := guard(metadb.ChannelMigrationPhaseDrainLeader, 150)
+		g2, r2 := guard(metadb.ChannelMigrationPhaseCommitLeaderMeta, 160), rg(1, 1, 1, "T1", 1)
+		g3, r3 := guard(metadb.ChannelMigrationPhaseVerifyNewLeader, 170), rg(1, 2, 2, "T1", 1)
+		pre = []c13Cmd{upsert("e1l1L1", "valid", rtm(1, 1, 1, r123, 1000)), create(task(lt, metadb.ChannelMigrationPhaseWriteFence, 1, 2, 2, 1)),
+			setFence("drain", g0, r0, metadb.ChannelMigrationPhaseDrainLeader, 900, 150),
+			advance("commit-meta+proof", g1, metadb.ChannelMigrationPhaseCommitLeaderMeta, 160, proof(1))}
+		commit := mk("mig-commit:T1:leader2", "stale", fsm.EncodeCommitChannelLeaderTransferCommand(metadb.ChannelMigrationLeaderTransferRequest{Guard: g2, RuntimeGuard: r2, Status: run,
+			Phase: metadb.ChannelMigrationPhaseVerifyNewLeader, DesiredLeader: 2, NextLeaderEpoch: 2, LeaseUntilMS: 2000, NowMS: 500, UpdatedAtMS: 170}))
+		clr := clearFence(g3, r3)
+		abortCut := abort("cutover", g2, r2)
+		menu = []c13Cmd{commit, clr, abortCut,
+			upsert("e1l1L1:lease2000", "stale", rtm(1, 1, 1, r123, 2000)), retAdv(1), control}
+		refresh := setFence("refresh", g2, r2, metadb.ChannelMigrationPhaseCommitLeaderMeta, 1500, 165)
+		reset := resetFence(g2, r2, metadb.ChannelMigrationPhaseWriteFence, 200)
+		full = []c13Cmd{commit, clr, abortCut, refresh, reset,
+			upsert("e1l1L1:lease2000", "stale", rtm(1, 1, 1, r123, 2000)), upsert("e1l2L2:lease3000", "valid", rtm(1, 2, 2, r123, 3000)), retAdv(1), control}
+		must = []string{commit.label, clr.label, abortCut.label}
+		if size == "full" {
+			must = append(must, refresh.label, reset.label)
+		}
+	case "replica-replace-add-learner":
+		// T1 replaces replica 3 by node 4 and waits in phase add-learner
+		g0, r0 := guard(metadb.ChannelMigrationPhaseAddLearner, 100), rg(1, 1, 1, "", 0)
+		g1, r1 := guard(metadb.ChannelMigrationPhaseBootstrapTarget, 150), rg(2, 1, 1, "", 0)
+		pre = []c13Cmd{upsert("e1l1L1", "valid", rtm(1, 1, 1, r123, 1000)), create(task(rr, metadb.ChannelMigrationPhaseAddLearner, 3, 4, 0, 1))}
+		add := mk("mig-add-learner:T1:node4", "stale", fsm.EncodeAddChannelLearnerCommand(metadb.ChannelMigrationAddLearnerRequest{Guard: g0, RuntimeGuard: r0, Status: run,
+			Phase: metadb.ChannelMigrationPhaseBootstrapTarget, TargetNode: 4, UpdatedAtMS: 150}))
+		abortAdded := abort("learner-added", g1, r1)
+		menu = []c13Cmd{add, abortAdded,
+			upsert("e1l1L1:lease2000", "stale", rtm(1, 1, 1, r123, 2000)), upsert("e2l1L1:r1234:lease3000", "valid", rtm(2, 1, 1, r1234, 3000)), retAdv(1), control}
+		full = []c13Cmd{add, abortAdded, abort("before-learner", g0, r0),
+			advance("warm-catch-up", g1, metadb.ChannelMigrationPhaseWarmCatchUp, 160, metadb.ChannelMigrationCutoverProof{}),
+			upsert("e1l1L1:lease2000", "stale", rtm(1, 1, 1, r123, 2000)), upsert("e2l1L1:r1234:lease3000", "valid", rtm(2, 1, 1, r1234, 3000)), retAdv(1), retAdv(2), control}
+		must = []string{add.label, abortAdded.label}
+	case "replica-replace-promote":
+		// learner 4 is in the replica set (channel epoch 2), T1 holds the cutover fence and the drain proof: the learner can be promoted
+		g0, r0 := guard(metadb.ChannelMigrationPhaseWarmCatchUp, 100), rg(2, 1, 1, "", 0)
+		g1 := guard(metadb.ChannelMigrationPhaseCutoverFence, 150)
+		g2, r2 := guard(metadb.ChannelMigrationPhasePromoteAndRemove, 160), rg(2, 1, 1, "T1", 1)
+		g3, r3 := guard(metadb.ChannelMigrationPhaseVerifyMembership, 170), rg(3, 1, 1, "T1", 1)
+		pre = []c13Cmd{upsert("e2l1L1:r1234", "valid", rtm(2, 1, 1, r1234, 1000)), create(task(rr, metadb.ChannelMigrationPhaseWarmCatchUp, 3, 4, 0, 2)),
+			setFence("cutover", g0, r0, metadb.ChannelMigrationPhaseCutoverFence, 900, 150),
+			advance("promote+proof", g1, metadb.ChannelMigrationPhasePromoteAndRemove, 160, proof(2))}
+		promote := mk("mig-promote:T1:3>4", "stale", fsm.EncodePromoteLearnerAndRemoveReplicaCommand(metadb.ChannelMigrationPromoteLearnerRequest{Guard: g2, RuntimeGuard: r2, Status: run,
+			Phase: metadb.ChannelMigrationPhaseVerifyMembership, SourceNode: 3, TargetNode: 4, NowMS: 500, UpdatedAtMS: 170}))
+		clr := clearFence(g3, r3)
+		abortFenced := abort("fenced-learner", g2, r2)
+		menu = []c13Cmd{promote, clr, abortFenced,
+			upsert("e2l1L1:r1234:lease2000", "stale", rtm(2, 1, 1, r1234, 2000)), retAdv(2), control}
+		reset := resetFence(g2, r2, metadb.ChannelMigrationPhaseWarmCatchUp, 200)
+		full = []c13Cmd{promote, clr, abortFenced, reset,
+			upsert("e2l1L1:r1234:lease2000", "stale", rtm(2, 1, 1, r1234, 2000)), upsert("e3l1L1:r124:lease3000", "valid", rtm(3, 1, 1, []uint64{1, 2, 4}, 3000)), retAdv(2), control}
+		must = []string{promote.label, clr.label, abortFenced.label}
+		if size == "full" {
+			must = append(must, reset.label)
+		}
+	default:
+		panic("c13: unknown channel-migration system " + config)
+	}
+	if size == "full" {
+		menu = full
+	}
+	return pre, menu, must
+}
+
+var c13ChanMigConfigs = []string{"leader-transfer-prefence", "leader-transfer-cutover", "replica-replace-add-learner", "replica-replace-promote"}
+
+func c13RunChanMig(r *ev.R, config, size string, depth int) {
+	pre, menu, must := c13MenuChanMig(config, size)
+	s := &c13Sys{name: fmt.Sprintf("logs%d-chanmig-%s", depth, config), menu: menu, preamble: pre, byLabel: map[string]int{}, maxDepth: depth}
+	if r.Replay() == nil {
+		// the start state really is "runtime meta + one active task on c1" (read back through the metadb API, once)
+		in := s.newInst().(*c13Inst)
+		meta, merr := in.node.db.ForHashSlot(c13HS).GetChannelRuntimeMeta(c13Ctx, "c1", 2)
+		active, ok, terr := in.node.db.ForHashSlot(c13HS).GetActiveChannelMigrationTask(c13Ctx, "c1", 2)
+		r.Guard(s.name+"/start-state", !in.dead && merr == nil && terr == nil && ok && active.TaskID == "T1" && meta.ChannelID == "c1",
+			"preamble ok=%v runtime meta err=%v (epoch %d fence %q/%d) active task found=%v err=%v (phase %d)", !in.dead, merr, meta.ChannelEpoch, meta.WriteFenceToken, meta.WriteFenceVersion, ok, terr, active.Phase)
+		in.Close()
+	}
+	_, res := c13RunSystem(r, s)
+	if r.Replay() != nil {
+		return
+	}
+	var missing, unmixed []string
+	for _, l := range must {
+		if _, ok := s.okChanged.Load(l); !ok {
+			missing = append(missing, l)
+		}
+		if _, ok := s.migThenReaderOK.Load(l); !ok {
+			unmixed = append(unmixed, l)
+		}
+	}
+	r.Count(s.name+".batches_one_successful_task+meta_command_then_runtime_meta_reader", s.migThenReader.Load())
+	r.Guard(s.name+"/migration-commands-succeed", len(missing) == 0, "task+meta migration commands that never answered ok with a state change as their own batch: %v", missing)
+	r.Guard(s.name+"/migration-command-then-reader-in-one-batch", len(unmixed) == 0 && s.migThenReader.Load() >= 20,
+		"explored batches holding exactly one successful task+meta migration command followed by a runtime-meta upsert / retention advance=%d; commands never seen in such a batch: %v", s.migThenReader.Load(), unmixed)
+	_, kinds := c13Count(&s.resultKinds)
+	stale := false
+	for _, k := range kinds {
+		if k == fsm.ApplyResultStaleMeta {
+			stale = true
+		}
+	}
+	r.Guard(s.name+"/stale-results", stale, "one-per-batch results observed=%v (need stale_meta: guards of not-yet / no-longer applicable commands)", kinds)
+	r.Guard(s.name+"/logs", res.Transitions >= 150, "command logs=%d", res.Transitions)
+	r.Guard(s.name+"/variants", s.partitionRuns.Load() >= 100 && s.restartRuns.Load() >= 100 && s.snapshotRuns.Load() >= 100,
+		"partition runs=%d restart runs=%d snapshot-restore runs=%d", s.partitionRuns.Load(), s.restartRuns.Load(), s.snapshotRuns.Load())
+}
+
 // ---------------------------------------------------------------- garbage payloads (enum)
 
 type c13Garbage struct {
-	node     *c13Node
-	seedSnap []byte
+	node        *c13Node
+	seedSnap    []byte
 	seedRestore []byte // state machine snapshot of the seed state
-	cur      []byte // snapshot the node currently holds
-	curIdx   uint64 // durable applied index the node currently holds
-	idx      uint64
+	cur         []byte // snapshot the node currently holds
+	curIdx      uint64 // durable applied index the node currently holds
+	idx         uint64
 }
 
 // c13SeedCmds put a user, a channel with subscribers, runtime metadata and a migration task in place,
@@ -1486,7 +1746,8 @@ func c13Assumptions(r *ev.R) {
 }
 
 // TestVerifC13: quick = every log <=3 over the mini menu + every log <=2 over the core menu + garbage;
-// thorough = every log <=2 over the full menu + every log <=3 over the core menu + garbage.
+// thorough = every log <=2 over the full menu + every log <=3 over the core menu + garbage; both tiers: every log <=3 of
+// the two hash-slot-migration systems and of the four channel-migration (task + runtime-meta) systems.
 func TestVerifC13(t *testing.T) {
 	r, done := c13Setup(t)
 	defer done()
@@ -1518,6 +1779,10 @@ func TestVerifC13(t *testing.T) {
 			c13RunHS(r, config, "full", 3)
 		}
 	}
+	// channel-migration commands that rewrite task + runtime meta, mixed with later readers of the same runtime-meta row
+	for _, config := range c13ChanMigConfigs {
+		c13RunChanMig(r, config, ev.Pick(r, "small", "full"), 3)
+	}
 	if r.Replay() != nil {
 		return
 	}
@@ -1526,13 +1791,17 @@ func TestVerifC13(t *testing.T) {
 	r.Assume("the in-memory hash-slot migration table (UpdateOutgoingDeltaTargets) is fixed per explored system and installed on every state machine, also after a restart and on a snapshot-restored replica, as the slot runtime does; changes of that table between commands are outside the log and not explored")
 }
 
-// TestVerifC13Depth4 (thorough only): every log <=4 over the small menu.
+// TestVerifC13Depth4 (thorough only): every log <=4 over the small menu, the small hash-slot-migration menus and the
+// small channel-migration menus.
 func TestVerifC13Depth4(t *testing.T) {
 	r, done := c13Setup(t)
 	defer done()
 	s, res := c13RunLogs(r, "logs4-small-menu", "small", 4)
 	for _, config := range []string{"snapshot-phase", "delta-phase"} {
 		c13RunHS(r, config, "small", 4)
+	}
+	for _, config := range c13ChanMigConfigs {
+		c13RunChanMig(r, config, "small", 4)
 	}
 	if r.Replay() != nil {
 		return
